@@ -12,6 +12,8 @@ import VOPyVerif.Model.Accuracy
   threshold units, `t = ε·α` per facet or `t = W·s` for an objective-space slack `s`)
 * `side <W> <s> <epsalpha>`              → `1` / `0` : `Accuracy.slackSideCondition`
 * `gap <W> <alpha> <mi> <mj>`            → the rational `m(i,j)` or `none`
+* `errw <c> <beta> <mu>`                  → `1` / `0` : the premise of `auer_final_accurate` for one design:
+  `c`, `β`, `μ` of one length, `Accuracy.errWithin c β μ` (‖c − μ‖_∞ ≤ min_d β_d) and `Accuracy.widthsPos β`
 * `pround <n> <dom> <cov> <S> <P> <U>`   → `S';P';U'` (each sorted ascending) : one `Steps.pavebaRound`
   with the oracles given as row-major `n×n` bit tables (`dom[i][j]` = "region i is dominated by region j",
   `cov[i][j]` = "region i is covered by region j")
@@ -65,6 +67,11 @@ def handle (args : List String) : String :=
         fmtSets [r.1, r.2]
       else bad
     | _, _, _, _, _ => bad
+  | ["errw", c, b, x] =>
+    match parseVec c, parseVec b, parseVec x with
+    | some c, some b, some x =>
+      fmtBool (decide (c.length = x.length) && decide (b.length = x.length) && errWithin c b x && widthsPos b)
+    | _, _, _ => bad
   | ["box", l, u, x] =>
     match parseVec l, parseVec u, parseVec x with
     | some l, some u, some x => fmtBool (inBox l u x)
